@@ -259,6 +259,9 @@ impl MultiState {
             .zip(width)
             .map(|(d, width)| d.visual_line_count(.., width))
             .unwrap_or_default();
+        // Only lines that are on the screen can be kept there (there are none after `clear`, and
+        // fewer if the terminal is not high enough)
+        let line_count = Ord::min(line_count, self.draw_target.last_line_count());
 
         // Track the total number of zombie lines on the screen
         self.zombie_lines_count = self.zombie_lines_count.saturating_add(line_count);
@@ -358,6 +361,8 @@ impl MultiState {
         // so they aren't cleared on next draw, and track them as zombie lines on the screen. This
         // must only happen once the draw went through (it may have been rate limited above).
         if !has_text_lines {
+            // Only lines that have been drawn can be kept (the terminal may not be high enough)
+            let adjust = Ord::min(adjust, self.draw_target.last_line_count());
             self.draw_target
                 .adjust_last_line_count(LineAdjust::Keep(adjust));
             self.zombie_lines_count = self.zombie_lines_count.saturating_add(adjust);
